@@ -312,6 +312,26 @@ def tld_functions(ctx, rule):
     ref = tld.func("refresh")
     src = unparse(ref.node)
     names = set(n.attr for n in ast.walk(ref.node) if isinstance(n, ast.Attribute) and isinstance(n.value, ast.Name) and n.value.id == "tld_data")
+    # ... or by name, through getattr(tld_data, <name from a module-level table>)
+    wanted = {"PUBLIC_SUFFIXES", "PRIVATE_SUFFIXES", "TLDS"}
+    if any(isinstance(c, ast.Call) and isinstance(c.func, ast.Name) and c.func.id == "getattr" and c.args and isinstance(c.args[0], ast.Name) and c.args[0].id == "tld_data" for c in ast.walk(ref.node)):
+        for x in ast.walk(ref.node):
+            if isinstance(x, ast.Constant) and x.value in wanted:
+                names.add(x.value)
+            if isinstance(x, ast.Name) and x.id in tld.bindings and x.id.isupper():
+                try:
+                    val = ctx.repo.const(tld, x.id)
+                except (Unknown, AnalysisError):
+                    continue
+                stack = [val]
+                while stack:
+                    y = stack.pop()
+                    if isinstance(y, str) and y in wanted:
+                        names.add(y)
+                    elif isinstance(y, (list, tuple, set, frozenset)):
+                        stack.extend(y)
+                    elif isinstance(y, dict):
+                        stack.extend(list(y.keys()) + list(y.values()))
     adds = [c for c in ast.walk(ref.node) if isinstance(c, ast.Call) and isinstance(c.func, ast.Attribute) and isinstance(c.func.value, ast.Name)]
     ok = {"PUBLIC_SUFFIXES", "PRIVATE_SUFFIXES", "TLDS"} <= names and any(c.func.value.id == "SUFFIX_TRIE" and c.func.attr == "add" for c in adds) \
         and any(c.func.value.id == "TLD_SET" and c.func.attr in ("add", "update") for c in adds)
